@@ -1,0 +1,71 @@
+//go:build verif
+
+// Contracts for package memcall, read by /verif/gocv (comment-only; no code).
+package memcall
+
+// ---- ghost page machine, driven by the memory primitives (keyed by the page = backing array of the byte slice) ----
+//@ ghost field mapped(ref) bool default false
+//@ ghost field locked(ref) bool default false
+//@ ghost field prot(ref) int
+
+// protection flags as small integers: 0 = no access, 1 = read-only, 2 = read-write
+//@ spec fn flagcode(f MemoryProtectionFlag) int
+//@ func NoAccess
+//@   trusted
+//@   pure
+//@   ensures flagcode(result) == 0
+//@ func ReadOnly
+//@   trusted
+//@   pure
+//@   ensures flagcode(result) == 1
+//@ func ReadWrite
+//@   trusted
+//@   pure
+//@   ensures flagcode(result) == 2
+
+//@ spec fn allzero(b []byte) bool = forall i int :: 0 <= i && i < len(b) ==> b[i] == 0
+
+// Every primitive may fail; a failed call changes nothing (fault-inclusive interface contracts).
+//@ iface Allocator.Alloc
+//@   names size
+//@   modifies mapped(arr(result)), locked(arr(result)), prot(arr(result))
+//@   ensures (err == nil) == (result != nil)
+//@   ensures err != nil ==> mapped(arr(result)) == old(mapped(arr(result))) && locked(arr(result)) == old(locked(arr(result))) && prot(arr(result)) == old(prot(arr(result)))
+//@   ensures err == nil ==> fresh(result) && len(result) == size && mapped(arr(result)) && !locked(arr(result)) && prot(arr(result)) == 2 && allzero(result)
+
+//@ iface Locker.Lock
+//@   names b
+//@   modifies locked(arr(b))
+//@   ensures err == nil ==> locked(arr(b))
+//@   ensures err != nil ==> locked(arr(b)) == old(locked(arr(b)))
+
+//@ iface Protector.Protect
+//@   names b, mpf
+//@   modifies prot(arr(b))
+//@   ensures err == nil ==> prot(arr(b)) == flagcode(mpf)
+//@   ensures err != nil ==> prot(arr(b)) == old(prot(arr(b)))
+
+// secret bytes are zeroed before their pages are unlocked or released
+//@ iface Unlocker.Unlock
+//@   names b
+//@   requires [C12:wiped-before-unlock] allzero(b)
+//@   modifies locked(arr(b))
+//@   ensures err == nil ==> !locked(arr(b))
+//@   ensures err != nil ==> locked(arr(b)) == old(locked(arr(b)))
+
+//@ iface Freer.Free
+//@   names b
+//@   requires [C12:wiped-before-free] allzero(b)
+//@   modifies mapped(arr(b))
+//@   ensures err == nil ==> !mapped(arr(b))
+//@   ensures err != nil ==> mapped(arr(b)) == old(mapped(arr(b)))
+
+// ---- C12: Clean attempts both steps whatever the first returns, and reports an error iff either failed ----
+//@ func Clean
+//@   facet C12
+//@   safety C12
+//@   requires c != nil
+//@   requires [C12:wiped-before-release] allzero(b)
+//@   modifies locked(arr(b)), mapped(arr(b))
+//@   ensures [C12:both-steps-attempted-error-iff-either-failed] (err == nil) == (ret(Unlock, 1, 0) == nil && ret(Free, 1, 0) == nil)
+//@   ensures [C12:clean-success-releases-the-page] err == nil ==> !locked(arr(b)) && !mapped(arr(b))
